@@ -448,6 +448,7 @@ func runC14(c *Ctx, tier string) {
 	stableSorts(c, "C14-S1", []string{"runtime/sam/op/meta.sortObjects", "(*runtime/sam/expr.Comparator).sortStableIndices"})
 	runDeleteComplement(c)
 	runSlicerBounds(c, "C14-S2")
+	runInputSortedWriters(c, "C14-S3")
 }
 
 // stableSorts: the named functions sort with a stable algorithm.
@@ -491,6 +492,8 @@ func runC15(c *Ctx, tier string) {
 	c.Rule("C15-K1", "a patch's view reflects everything its mutators record: Lookup/Select/SelectAll read every field AddDataObject/DeleteObject write, HasVector every field AddVector/DeleteVector write")
 	c.Rule("C15-P3", "merge and revert objects are built against the tip inside the retry loop (= C12-P3)")
 	c.Rule("C15-E1", "conflict errors abort before any write: errors of Diff / Patch.Revert / PatchOfPath are returned from the constructor, which runs before commits.Put")
+	runDiffDeleteConflict(c, "C15-E2")
+	runDiffAddsOnlyChildAdditions(c, "C15-K2")
 	// K1
 	methods := map[string]*ssa.Function{}
 	for _, fn := range p.FuncsIn("lake/commits") {
